@@ -41,12 +41,13 @@ EmitRec ==
     [] st.k = "case" /\ st.sim = "gibbs" ->
          [kind |-> "case", c |-> st, sites |-> GSites,
           bounds |-> [i \in 1..Len(GSites) |-> JPair(GPattern(st.pat)[i])],
+          sel |-> SelSeq(st.mask, Len(GSites)),
           sweeps |-> CaseSweeps, ok_from |-> st.nburn, ascoded_ok_from |-> AsCodedOKFrom(st.nburn)]
     [] st.k = "case" /\ st.sim = "simpgs" ->
-         [kind |-> "case", c |-> st, data |-> XY(DataSet("D4")), props |-> RuleProps(st.rule),
+         [kind |-> "case", c |-> st, data |-> XY(DataSet("D4")), props |-> RuleProps(st.rule), sel |-> SelSeq(st.mask, 4),
           layout_ok |-> LayoutOK(1, PgsNgrf(st), st.nbsimu), ngrf |-> PgsNgrf(st)]
     [] st.k = "case" /\ st.sim = "simbipgs" ->
-         [kind |-> "case", c |-> st, data |-> XY(DataSet("D4")), props |-> Props2(st.rule, st.rule2),
+         [kind |-> "case", c |-> st, data |-> XY(DataSet("D4")), props |-> Props2(st.rule, st.rule2), sel |-> SelSeq(st.mask, 4),
           layout_ok |-> LayoutOK(2, PgsNgrf(st), st.nbsimu), ngrf |-> PgsNgrf(st)]
     [] OTHER -> [kind |-> "none"]
 Emit == st.k \in {"tgb", "layout", "rule", "case"} => PrintT(ToJson(EmitRec))
